@@ -73,6 +73,7 @@ structure WStableAt (n : Nat) : Prop where
   writeFields : ∀ cs ts fs m, Codec.szList cs + GoVal.szList fs + 1 ≤ n → n ≤ m →
     writeFields env m cs ts fs = writeFields env n cs ts fs
 
+set_option linter.unusedSimpArgs false in
 theorem wStableAt : ∀ n, WStableAt env n := by
   intro n
   induction n with
@@ -148,6 +149,7 @@ structure TStableAt (nullp : Codec → GoVal → Bool) (n : Nat) : Prop where
   toAvroFields : ∀ cs ts fs m, Codec.szList cs + GoVal.szList fs + 1 ≤ n → n ≤ m →
     toAvroFields env nullp m cs ts fs = toAvroFields env nullp n cs ts fs
 
+set_option linter.unusedSimpArgs false in
 theorem tStableAt (nullp : Codec → GoVal → Bool) : ∀ n, TStableAt env nullp n := by
   intro n
   induction n with
